@@ -61,6 +61,8 @@ ASSUMPTIONS = [
 ]
 BUDGET = {"quick": 120, "thorough": 900}
 
+# documented positional order of PD (signature of /repo HEAD 8caea4c, recorded here as a literal: NOT read from the code under test)
+PD_POSITIONAL = ["input", "BW", "r", "T", "R_load", "include_noise", "i_dark", "Fn"]
 OPTIONS = ["ase-only", "thermal-only", "shot-only", "ase-thermal", "ase-shot", "thermal-shot", "all"]
 CONTENT = {  # option -> (sig-noise beating, noise-noise beating, thermal, shot)   [the statement / docstring]
     "ase-only": (1, 1, 0, 0), "thermal-only": (0, 0, 1, 0), "shot-only": (0, 0, 0, 1), "ase-thermal": (1, 1, 1, 0),
@@ -330,7 +332,7 @@ class _Spies:
         return False
 
 
-def _call_pd(case, s, nz, r, T, Rl, sel, seed, store_values=True, inp_kind="optical"):
+def _call_pd(case, s, nz, r, T, Rl, sel, seed, store_values=True, inp_kind="optical", positional=False):
     """one call of the real PD under the spies. returns dict"""
     from opticomlib.typing import optical_signal, electrical_signal
     from opticomlib.devices import PD
@@ -354,7 +356,12 @@ def _call_pd(case, s, nz, r, T, Rl, sel, seed, store_values=True, inp_kind="opti
     with _Spies() as sp, _c11._Spy(dev) as fsp:
         try:
             with time_limit(60):
-                y = PD(x, case["BW"], r=r, T=T, R_load=Rl, include_noise=sel, i_dark=case["i_dark"], Fn=case["Fn"])
+                if positional:
+                    kw = {"input": x, "BW": case["BW"], "r": r, "T": T, "R_load": Rl, "include_noise": sel, "i_dark": case["i_dark"],
+                          "Fn": case["Fn"]}
+                    y = PD(*[kw[k] for k in PD_POSITIONAL])
+                else:
+                    y = PD(x, case["BW"], r=r, T=T, R_load=Rl, include_noise=sel, i_dark=case["i_dark"], Fn=case["Fn"])
             out["status"] = "ok"
             out["cls"] = type(y).__name__
             out["out_sig"] = np.array(y.signal, dtype=float)
@@ -487,6 +494,12 @@ def run_impl(case):
                 cc = complex(*case["twin_c"])
                 c = _call_pd(case, s * cc, None if nz is None else nz * cc, r, T, Rl, sel, case["np_seed"])
                 tw["quad"] = {"status": c["status"], "err": _maxrel(c["out_sig"], abs(cc) ** 2 * main["out_sig"]) if c["status"] == "ok" else None}
+                # (f) the same call with every argument passed POSITIONALLY in the documented order, same seed: bit-identical
+                c = _call_pd(case, s, nz, r, T, Rl, sel, case["np_seed"], positional=True)
+                tw["positional"] = {"status": c["status"], "detail": c.get("detail"),
+                                    "identical": c["status"] == "ok" and bool(np.array_equal(c["out_sig"], main["out_sig"], equal_nan=True)
+                                                                              and np.array_equal(c["out_noise"], main["out_noise"], equal_nan=True)),
+                                    "scales": [q["scale"] for q in c["rng"]], "main_scales": [q["scale"] for q in main["rng"]]}
                 res["twins"] = tw
             res["status"] = "done"
     except Timeout as e:
@@ -864,6 +877,11 @@ def oracle(case, res):
                               f"noise {t['noise_err']:.3e}, sigma {t['rng_scale_err']:.3e} (relative)"))
         if tw["lin"]["status"] != "ok" or _exceeds(tw["lin"]["err"], 1e-9):
             v.append(("C09:linear-r-R", f"signal part not proportional to r*R_load: {tw['lin']}"))
+        if "positional" in tw and not tw["positional"]["identical"]:
+            t = tw["positional"]
+            v.append(("C09:positional:PD", f"PD(input, BW, r, T, R_load, include_noise, i_dark, Fn) called positionally in the documented order "
+                      f"(i_dark={case['i_dark']}, Fn={case['Fn']}) differs from the keyword call under the same seed: {t['status']} {t.get('detail')}, "
+                      f"RNG scales {t['scales']} vs {t['main_scales']}"))
         if tw["quad"]["status"] != "ok" or _exceeds(tw["quad"]["err"], 1e-9):
             v.append(("C09:quadratic", f"signal part not proportional to |c|^2: {tw['quad']}"))
     return v
